@@ -8,8 +8,10 @@ Z3  the final sweep visits the selected x values in ascending order and deletes 
 Z4  W == max(1, int(x_max * dx)), H == (y_max - y_min) * dy; x_max defaults to len(points), the
     y range to the curve's own range.
 Z5  x values are mapped back to indices with searchsorted on the x column.
-Termination and the iteration bound are NOT decided (they depend on numpy boolean-mask
-semantics over runtime data).
+Z6  the candidates of a round are grouped at the gaps >= W (one pick per group).
+Z7  termination, structurally: the threshold drops by dz > 0 every continuing round, the loop is left once the
+    threshold is at or below a loop-invariant bound and nothing was selected, and counted selections sit next to
+    an exclusion whose mask rejects the selected point itself.
 """
 
 from __future__ import annotations
@@ -177,6 +179,14 @@ def run(ctx):
                     g = ev.bool_registry.get(next(iter(keys)))
             if not isinstance(g, G):
                 raise AnalysisError("zmethod.getPoints: an exclusion site does not filter the working array with one boolean mask - shape not recognised")
+            if label == "defaults":
+                from ..seqdom import g_subst as _gs
+                at_self = _gs(g, {"p.x": bx, "p.y": by})
+                if not g_sat(g_and(at_self, canon_sign(want_W - C(1), OPS[">="]))):           # max(1, .) >= 1
+                    res.ok("Z7", f"zmethod.getPoints:site{n_site}:self", "the keep-mask rejects the selected point itself (W >= 1): a selection removes at least one point")
+                else:
+                    res.violation("Z7", mod, fi.name, st, "the exclusion mask keeps the selected point itself: a round can select the same point again and the working "
+                                  "array need not shrink", _short(at_self, 200), "a mask that is false at the selected point", construct=f"self exclusion site{n_site}")
             if g_implies(g, ref):
                 res.ok("Z1", f"zmethod.getPoints:site{n_site}[{label}]",
                        f"kept points lie outside the x band (W = max(1, int({xmax_v}*dx))) and the y band (H = ({_short(ymax_v, 24)} - {_short(ymin_v, 24)})*dy) of the selected point")
@@ -401,11 +411,168 @@ def run(ctx):
     res.rule("Z6", "candidates of one round are split into groups at the gaps >= W: with G = positions of the candidates left of such a gap, the groups are the "
                    "position intervals [0, G0], (G0, G1], ..., (G_last, end]; one pick per group => same-round picks are >= W apart in x")
     _groups(rc, fi, main, arr_name)
-    res.assumptions += ["strictly increasing non-negative integer x, y in [0, 1], dx, dy, dz > 0", "W, H >= 0"]
-    res.not_decided += ["termination and the iteration bound of the selection loop (needs: points_added > 0 => len(points) decreases - a fact about numpy masks on runtime data)",
-                        "validity for non-integer x"]
+    res.rule("Z7", "the selection loop has a variant: the threshold drops by dz > 0 on every round that continues; the loop is left as soon as the threshold is at or "
+                   "below a loop-invariant bound and the round selected nothing; every counted selection sits next to an exclusion whose mask rejects the selected "
+                   "point itself (so such rounds shrink the working array) => at most ceil((z0 - bound)/dz) + n + 1 rounds")
+    _termination(rc, fi, main, k, arr_name, sites, selections, blocks)
+    res.assumptions += ["strictly increasing non-negative integer x, y in [0, 1], dx, dy, dz > 0", "W, H >= 0",
+                        "the selected point of a round is an element of the working array (it is read from a mask / arg-optimum of it)"]
+    res.not_decided += ["the exact iteration bound of the selection loop", "validity for non-integer x"]
     res.require_instances("C10 obligations", len(res.obligations), 8)
 
+
+
+def _termination(rc: RuleCtx, fi, main, k_main: int, arr_name: str, sites, selections, blocks):
+    """Z7, read off the statements of the main loop's own block (a syntax-directed walk: the facts are about which
+    statements every continuing round executes)."""
+    res = rc.res
+    mod = fi.module
+    ev = rc.new_eval()
+    rc.ev = ev
+    pts = ev.point("points", True)
+    ev.len_map = {"points": sym("n")}
+    env = {"points": pts, "dx": ev.symbol("dx"), "dy": ev.symbol("dy"), "dz": ev.symbol("dz"), "plot": FALSE, "x_max": Obj("none"), "y_range": Obj("none")}
+    fr = Frame(ev, fi, 0)
+    try:
+        fr.block(fi.node.body[:k_main], env, TRUE)
+    except Unsupported as e:
+        raise AnalysisError(f"zmethod.getPoints: statements before the main loop not modelled: {e}")
+    top = list(main.body)
+    for n in ast.walk(main):
+        if isinstance(n, ast.Continue):
+            owner = None
+            for lp in ast.walk(main):
+                if lp is not main and isinstance(lp, (ast.For, ast.While)) and any(x is n for x in ast.walk(lp)):
+                    owner = lp
+            if owner is None:
+                raise AnalysisError("zmethod.getPoints: `continue` in the main loop - the per-round statements are not all executed; shape not recognised")
+    stored = set(stored_names(main))
+    # ---- the threshold: the one name every round lowers by a positive, loop-invariant amount ----------------------
+    drops = []
+    for st in top:
+        tgt = val = None
+        if isinstance(st, ast.AugAssign) and isinstance(st.target, ast.Name) and isinstance(st.op, (ast.Sub, ast.Add)):
+            tgt = st.target.id
+        elif isinstance(st, ast.Assign) and len(st.targets) == 1 and isinstance(st.targets[0], ast.Name) \
+                and any(isinstance(x, ast.Name) and x.id == st.targets[0].id for x in ast.walk(st.value)):
+            tgt = st.targets[0].id
+        if tgt is None or tgt == arr_name:
+            continue
+        benv = dict(env)
+        for nme in stored:
+            if nme in benv and nme != arr_name:
+                benv[nme] = sym(nme)
+        try:
+            Frame(ev, fi, 0).stmt(st, benv, TRUE)
+        except Unsupported:
+            continue
+        new = benv.get(tgt)
+        if isinstance(new, Rat):
+            d = sym(tgt).sub(new)
+            q = d.div(sym("dz"))
+            if not (d.symbols() & stored) and q.is_const() is not None and q.is_const() > 0:
+                drops.append((tgt, st, d))
+    if len(drops) != 1:
+        raise AnalysisError(f"zmethod.getPoints: expected one per-round statement lowering the threshold by a positive multiple of dz, found {len(drops)} - shape not recognised")
+    zv, drop_st, _d = drops[0]
+    # ---- the per-round counter: reset to 0 in the loop's own block, incremented next to selections -----------------------
+    resets = [st for st in top if isinstance(st, ast.Assign) and len(st.targets) == 1 and isinstance(st.targets[0], ast.Name)
+              and isinstance(st.value, ast.Constant) and st.value.value == 0 and not isinstance(st.value.value, bool)]
+    incs = [n for n in ast.walk(main) if isinstance(n, ast.AugAssign) and isinstance(n.op, ast.Add) and isinstance(n.target, ast.Name)
+            and any(r.targets[0].id == n.target.id for r in resets)]
+    cnt = incs[0].target.id if incs and len({n.target.id for n in incs}) == 1 else None
+    # ---- the exits of the loop's own block ---------------------------------------------------------------------
+    last_sel = max((i for i, st in enumerate(top) if any(x in selections for x in ast.walk(st))), default=-1)
+    benv = dict(env)
+    for nme in stored:
+        if nme != arr_name:
+            benv[nme] = sym(nme)
+    benv[arr_name] = Vec([ev.symbol("w.x", True), ev.symbol("w.y", True), ev.symbol("w.z", True)], "point")
+    ev.len_map.update({"w.x": sym("m"), "w.y": sym("m"), "w.z": sym("m")})
+    exits = []
+    if not (isinstance(main.test, ast.Constant) and main.test.value is True):
+        try:
+            exits.append((g_not(Frame(ev, fi, 0).cond(main.test, dict(benv))), main, -1))
+        except Unsupported as e:
+            raise AnalysisError(f"zmethod.getPoints: main loop test not modelled: {e}")
+    for i, st in enumerate(top):
+        if isinstance(st, ast.If) and any(isinstance(x, ast.Break) for x in ast.walk(st)) \
+                and not any(isinstance(x, (ast.For, ast.While)) for x in ast.walk(st)):
+            # the condition under which this statement leaves the loop (nested ifs included): the guards of its breaks
+            try:
+                f_ = Frame(ev, fi, 0)
+                f_.stmt(st, dict(benv), TRUE)
+                exits.append((g_or(*f_.breaks) if f_.breaks else FALSE, st, i))
+            except Unsupported as e:
+                raise AnalysisError(f"zmethod.getPoints: loop exit test not modelled: {e}")
+    if not exits:
+        raise AnalysisError("zmethod.getPoints: the main loop has no exit in its own block (while test / `if ..: break`) - shape not recognised")
+    from ..seqdom import g_subst
+    found = None
+    for g, st, i in exits:
+        g0 = g_subst(g, {cnt: C(0)}) if cnt is not None else g
+        uses_cnt = cnt is not None and cnt in _g_symbols(g)
+        if uses_cnt and 0 <= i <= last_sel:
+            continue                       # tested before the round's selections are counted: says nothing about this round
+        for lit in _sign_literals(g0):
+            # a literal `zv - L <= 0` (or <) with L loop invariant that alone implies the exit (with nothing selected)
+            L = sym(zv).sub(lit.a) if lit.a.sub(sym(zv)).symbols().isdisjoint({zv}) else None
+            Lneg = lit.a.add(sym(zv)) if lit.a.add(sym(zv)).symbols().isdisjoint({zv}) else None
+            for bound, signs in ((L, lit.b), (Lneg, frozenset(-x for x in lit.b))):
+                if bound is None or (bound.symbols() & (stored - {arr_name})):
+                    continue
+                if signs in (OPS["<="], OPS["<"]) and g_implies(canon_sign(sym(zv).sub(bound), signs), g0):
+                    found = (st, bound, uses_cnt)
+    if found is None:
+        res.violation("Z7", mod, fi.name, exits[-1][1], "no exit of the selection loop is taken just because the threshold has reached a loop-invariant bound and the round "
+                      "selected nothing: the loop then ends only when the working array happens to drain, which a point kept by the exclusion mask but "
+                      "never accepted by the selection test prevents", "; ".join(_short(g, 120) for g, _s, _i in exits),
+                      f"`{zv} <= <minimum z-score>` (and nothing selected this round) among the exit conditions", construct="threshold exit")
+        return
+    res.ok("Z7", "zmethod.getPoints:exit", f"the loop is left when {zv} <= {_short(found[1], 60)}" + (f" and {cnt} == 0" if found[2] else ""))
+    res.ok("Z7", "zmethod.getPoints:drop", f"every continuing round lowers {zv} by {_short(_d, 30)} > 0 (a statement of the loop's own block, no `continue`)")
+    # ---- counted selections shrink the working array ------------------------------------------------------------
+    if found[2]:
+        bad = [n for n in incs if not any(x in sites for x in blocks[id(n)][1])] if all(id(n) in blocks for n in incs) else incs
+        unc = [b for b in selections if not any(isinstance(x, ast.AugAssign) and x in incs for x in blocks[id(b)][1])]
+        if bad:
+            res.violation("Z7", mod, fi.name, bad[0], f"{cnt} is incremented where no point is removed from the working array: a round can count progress without making any",
+                          ast.unparse(bad[0]), "increment next to an exclusion site", construct="counter without exclusion")
+        elif unc:
+            # an uncounted selection only makes the loop stop earlier (the round looks idle): no termination issue
+            res.ok("Z7", "zmethod.getPoints:counter", f"{len(incs)} increment(s) of {cnt}, each next to an exclusion site ({len(unc)} selection(s) uncounted: exits earlier)")
+        else:
+            res.ok("Z7", "zmethod.getPoints:counter", f"{cnt} is reset every round and incremented next to each of the {len(selections)} selection / exclusion sites")
+
+
+def _g_symbols(g: G) -> set:
+    out = set()
+
+    def walk(x):
+        if x.kind == "sign":
+            out.update(x.a.symbols())
+        elif x.kind == "not":
+            walk(x.a)
+        elif x.kind in ("and", "or"):
+            for y in x.a:
+                walk(y)
+    walk(g)
+    return out
+
+
+def _sign_literals(g: G) -> list:
+    out = []
+
+    def walk(x):
+        if x.kind == "sign":
+            out.append(x)
+        elif x.kind == "not":
+            walk(x.a)
+        elif x.kind in ("and", "or"):
+            for y in x.a:
+                walk(y)
+    walk(g)
+    return out
 
 
 def _groups(rc: RuleCtx, fi, main, arr_name: str):
